@@ -45,7 +45,8 @@ T_XQ   == <<120, 39, 49, 102, 39>>                \* x'1f'
 T_EMPTY == <<>>
 
 Tokens(p) ==
-  (IF Rich THEN {T_ID, T_ID2, T_NUM, T_STR, T_CHR, T_PAR, T_ESC, T_BRK, T_EXPR, T_CHR2, T_EMPTY}
+  (IF Product THEN {T_ID2, T_STR}                          \* full product of the choices: small alphabet
+   ELSE IF Rich THEN {T_ID, T_ID2, T_NUM, T_STR, T_CHR, T_PAR, T_ESC, T_BRK, T_EXPR, T_CHR2, T_EMPTY}
    ELSE {T_ID2, T_STR, T_ESC, T_EXPR})
   \cup (IF p.qq = QQ_Z80 THEN {T_AFQ} ELSE {})
   \cup (IF p.qq = QQ_Z80X THEN {T_AFQ, T_AQ} ELSE {})
@@ -77,7 +78,7 @@ Choices(p, l) ==
      s1 \in (IF l.lab = <<>> THEN {<<>>} ELSE WS0), s2 \in (IF l.args = <<>> THEN {<<SPC>>} ELSE WS1),
      pr \in (IF Len(l.args) < 2 THEN {<<>>} ELSE {<<>>, <<SPC>>, <<TAB>>}), po \in (IF Len(l.args) < 2 THEN {<<>>} ELSE WS0),
      dt \in (IF p.div[1] = SPC /\ Len(l.args) > 1 THEN BOOLEAN ELSE {FALSE}),
-     tr \in {<<>>, <<TAB>>}, cm \in Cmts(p), eo \in Eols, ca \in {"keep", "upper", "lower", "swap", "alt"}}
+     tr \in {<<>>, <<TAB>>}, cm \in Cmts(p), eo \in Eols, ca \in (IF Product THEN {"keep", "alt"} ELSE {"keep", "upper", "lower", "swap", "alt"})}
 
 \* what the manual requires of a spelling (everything else is free):
 Allowed(p, l, ch) ==
